@@ -32,6 +32,7 @@ def _weights(n, allow_none=True, min_pos=1):
     """Non-negative weights with zeros, bounded dynamic range [1e-3, 1e3]; at least min_pos positive."""
     pos = st.one_of(st.integers(1, 8).map(float), st.floats(1e-3, 1e3, allow_nan=False),
                     st.sampled_from([0.1, 0.2, 0.25, 0.5, 1.0]))
+    counts = st.integers(1, 1000).map(float)          # whole-number weights (counts) beyond one digit
     w = st.lists(st.one_of(st.just(0.0), pos, pos), min_size=n, max_size=n)
     fixed_pos = st.lists(st.integers(0, n - 1), min_size=min_pos, max_size=min_pos, unique=True)
 
@@ -44,7 +45,8 @@ def _weights(n, allow_none=True, min_pos=1):
         return ws
     base = st.tuples(w, fixed_pos, st.lists(pos, min_size=min_pos, max_size=min_pos)).map(fix)
     equal = pos.map(lambda v: [v] * n)
-    opts = [base, base, equal]
+    whole = st.lists(st.one_of(st.just(0.0), counts, counts), min_size=n, max_size=n).filter(lambda ws: sum(1 for v in ws if v > 0) >= min_pos)
+    opts = [base, base, equal, whole]
     if allow_none:
         opts.append(st.none())
     return st.one_of(*opts)
@@ -163,6 +165,7 @@ def strat_var(tier):
             'ws': _weights(n, min_pos=2),
             'oned': st.booleans(),
             'int_inputs': st.sampled_from(['no', 'no', 'x', 'w', 'both']),
+            'int_dtype': st.integers(0, 3),
         })
     return st.integers(2, 30).flatmap(build)
 
@@ -197,11 +200,16 @@ def run_var(case):
                             % (c.tolist(), case['ws'], j, float(s2[j]), ref))
     labels = []
     if ws is not None:
-        with must_not_raise(P, 'compute_ess'):
-            ess = float(compute_ess(ws.copy()))
+        wess = ws.copy()
+        if case.get('int_inputs', 'no') in ('w', 'both') and np.all(wess == np.round(wess)):
+            # counts as weights, in the narrowest integer type that holds them (their SQUARES need not fit)
+            fits = [dt for dt in ('uint8', 'int16', 'int32', 'int64') if wess.max() <= np.iinfo(dt).max]
+            wess = wess.astype(fits[case.get('int_dtype', 0) % len(fits)])
+        with must_not_raise(P, 'compute_ess (weights dtype %s)' % wess.dtype):
+            ess = float(compute_ess(wess))
         ref = float(V1 * V1 / V2)
         if not abs(ess - ref) <= 1e-10 * ref:
-            raise Violation('C13:ess', 'compute_ess(%r) = %r, (sum w)^2/sum w^2 = %r' % (case['ws'], ess, ref))
+            raise Violation('C13:ess', 'compute_ess(%r as %s) = %r, (sum w)^2/sum w^2 = %r' % (case['ws'], wess.dtype, ess, ref))
         if any(v == 0 for v in case['ws']):
             labels.append('zero-weights')
         if len(set(case['ws'])) > 1:
@@ -342,7 +350,7 @@ def strat_rvs(tier):
         'cov_kind': st.sampled_from(['scalar', 'matrix', 'default']),
         'cond': st.sampled_from([1.0, 10.0]),
         'weights': st.sampled_from(['none', 'equal', 'unequal', 'with-zero']),
-        'size': st.one_of(st.none(), st.integers(1, 30), st.integers(1, 3)),
+        'size': st.one_of(st.none(), st.integers(1, 30), st.integers(1, 3), st.just(0)),
         'constraint': st.sampled_from(['none', 'all', 'halfspace', 'box', 'tight']),
         'seed': st.integers(0, 2 ** 32 - 1),
     })
@@ -412,7 +420,7 @@ def run_rvs(case):
     rows = np.reshape(out, (n, d))
     if not np.all(np.isfinite(rows)):
         raise Violation('C13:rvs-nonfinite', 'rvs returned non-finite values: %r' % rows.tolist())
-    labels = ['d=%d' % d, 'constraint=' + case['constraint'], 'size=None' if size is None else ('size=1' if n == 1 else 'size>1')]
+    labels = ['d=%d' % d, 'constraint=' + case['constraint'], 'size=None' if size is None else ('size=0' if n == 0 else ('size=1' if n == 1 else 'size>1'))]
     nontrivial = None
     if cons is not None:
         if not np.all(cons.ok(rows)):
